@@ -487,11 +487,18 @@ func filterFloatformat(in *Value, param *Value) (*Value, *Error) {
 
 func filterGetdigit(in *Value, param *Value) (*Value, *Error) {
 	i := param.Integer()
-	l := len(in.String()) // do NOT use in.Len() here!
+	digits := strings.TrimPrefix(in.String(), "-") // the sign is not a digit
+	l := len(digits)                               // do NOT use in.Len() here!
 	if i <= 0 || i > l {
 		return in, nil
 	}
-	return AsValue(in.String()[l-i] - 48), nil
+	for _, c := range []byte(digits) {
+		if c < '0' || c > '9' {
+			// not a whole number: invalid input is returned as it is
+			return in, nil
+		}
+	}
+	return AsValue(digits[l-i] - 48), nil
 }
 
 const filterIRIChars = "/#%[]=:;$&()+,!?*@'~"
